@@ -112,8 +112,10 @@ def run(tier, seed):
             # oracle: the true sets
             sfiles = {p: e for p, e in bs.items() if e["kind"] == "f"}
             dfiles = {p: e for p, e in bd.items() if e["kind"] == "f"}
-            true_mis = sorted(p for p in sfiles if p in dfiles and sfiles[p]["sha"] != dfiles[p]["sha"])
-            true_os = sorted(p for p in sfiles if p not in dfiles)
+            # a source file whose path is a DIRECTORY in the destination exists on both sides and differs: a mismatch;
+            # a destination file whose path is a directory in the source has no counterpart: destination-only
+            true_mis = sorted(p for p in sfiles if (p in dfiles and sfiles[p]["sha"] != dfiles[p]["sha"]) or (p in bd and bd[p]["kind"] == "d"))
+            true_os = sorted(p for p in sfiles if p not in bd)
             true_od = sorted(p for p in dfiles if p not in sfiles)
             same = not (true_mis or true_os or true_od)
             got = (sorted(ev["files_mismatched"]), sorted(ev["files_only_in_source"]), sorted(ev["files_only_in_dest"]))
@@ -122,7 +124,7 @@ def run(tier, seed):
             if rr["rc"] == 2 and not ev["errors"]:
                 ok = False
             if not ok:
-                klass = "type-conflict" if conflict else ("fast-mode" if mode == "fast" and true_mis and got[1:] == (true_os, true_od) else None)
+                klass = None
                 fl = {"world": i, "mode": mode, "why": "exit %s / lists %r, true sets %r" % (rr["rc"], got, (true_mis, true_os, true_od)), "klass": klass}
                 obs[-1] = obs[-1] + (fl,)
             else:
